@@ -28,6 +28,7 @@ def genTables : Tables :=
     listNotCoerced := Gen.listNotCoerced, symbolUnchecked := Gen.symbolUnchecked,
     fieldPosAfterLookahead := Gen.fieldPosAfterLookahead,
     opErrPosAfterLookahead := Gen.opErrPosAfterLookahead,
+    fragCondPosAfterToken := Gen.fragCondPosAfterToken, varDefPosAfterToken := Gen.varDefPosAfterToken,
     leafErrNulls := Gen.leafErrNulls, fastSliceCopies := Gen.fastSliceCopies }
 
 def main (args : List String) : IO Unit := run genTables args
